@@ -205,6 +205,7 @@ inline void enumerate(const World &w, const Opts &o, std::vector<Op> &out) {
       if (o.temps) {
         add(MERGE_TEMP, mask); add(MERGE_OTHER, mask);
         add(COPY_ASSIGN_T, mask); add(MOVE_ASSIGN_T, mask); add(SWAP_T, mask); add(MOVE_CTOR_T, mask); add(COPY_CTOR_T, mask);
+        add(MOVE_CTOR_T, mask, 1); add(COPY_CTOR_T, mask, 1);  // allocator-extended constructors
       }
     }
     for (int code : seqs) {
